@@ -35,11 +35,13 @@ theorem dist_aux_nf_gcd (lat1 lon1 lat2 lon2 : ℝ) :
       = 2 * Real.arcsin (Real.sqrt (dist_aux_hav (lat1 * kk) (lon1 * kk) (lat2 * kk) (lon2 * kk)))
           * (180 / Real.pi) := by
   simp only [great_circle_distance, dist_aux_hav, kk]
+  <;> ring_nf
 
 theorem dist_aux_nf_gcd_r (lat1 lon1 lat2 lon2 r : ℝ) :
     great_circle_distance_r lat1 lon1 lat2 lon2 r
       = r * (2 * Real.arcsin (Real.sqrt (dist_aux_hav (lat1 * kk) (lon1 * kk) (lat2 * kk) (lon2 * kk)))) := by
   simp only [great_circle_distance_r, dist_aux_hav, kk]
+  <;> ring_nf
 
 theorem dist_aux_nf_cart (r lat lon : ℝ) :
     geocentric2cart r lat lon
